@@ -3,7 +3,8 @@
 #![allow(deprecated, unused_imports, dead_code)]
 use fips204::traits::{KeyGen, SerDes, Signer, Verifier};
 use fips204::Ph;
-use rand_core::{CryptoRng, Error, RngCore};
+// through the crate-root re-exports (they must exist in every configuration), not through rand_core directly
+use fips204::{CryptoRng, RngCore, RngError as Error};
 use sha3::digest::{ExtendableOutput, Update, XofReader};
 
 struct Fixed(u8);
@@ -34,7 +35,7 @@ macro_rules! digest_set {
             verdicts.push(pk.hash_verify(b"x", &s, b"c", &ph));
         }
         // many signatures: rare rejection-loop paths must agree across configurations too
-        for i in 0u32..300 {
+        for i in 0u32..1500 {
             let m = i.to_le_bytes();
             let s = sk.try_sign_with_rng(&mut Fixed((i % 251) as u8), &m, b"").unwrap();
             h.update(&s);
